@@ -41,6 +41,7 @@ uint64_t g_cw_blk; unsigned g_cw_off;             /* watch selectors: never assi
 int g_cw_hit; unsigned char g_cw_byte; size_t g_cw_call;
 uint32_t *g_c_state[3]; const unsigned char *g_c_ptr[3]; size_t g_c_n[3];
 uint32_t g_c_out[8];
+unsigned char *g_mc_base; size_t g_mc_doff; int g_mc_calls;   /* memcpy model (below) */
 int g_c_bad;                                       /* a call with n == 0 or with a state pointer that is not 32 writable bytes */
 #define COMPLOG_RESET() do { g_c_calls = 0; g_c_blocks = 0; g_cw_hit = 0; g_cw_byte = 0; g_cw_call = 0; g_c_bad = 0; \
     g_c_state[0] = g_c_state[1] = g_c_state[2] = NULL; g_c_ptr[0] = g_c_ptr[1] = g_c_ptr[2] = NULL; g_c_n[0] = g_c_n[1] = g_c_n[2] = 0; } while (0)
@@ -62,6 +63,44 @@ static void verif_compress(uint32_t *s, const unsigned char *blocks, size_t n) {
 #endif
 }
 
+/* ---- L2 STREAM CONTRACT of secp256k1_sha256_write in terms of the compression log ---------------------
+ * With B0 = old bytes, B1 = B0 + len, R0 = B0%64, NB = B1/64 - B0/64, J = g_cw_blk - old(g_c_blocks)
+ * (number of the watched block relative to this call), o = g_cw_off and, for a block number j of this
+ * call, stream(j, o) = old buf[o] if 64 j + o < R0, else data[64 j + o - R0]  (the stream byte at absolute
+ * position 64 (B0/64 + j) + o, written relative to data[0] so that no 2^64-sized sums occur):
+ *   (a) bytes' = B1                       (b) g_c_blocks' = g_c_blocks + NB; the watched block is delivered
+ *   exactly once iff 0 <= J < NB, with byte stream(J, o)   (c) o < B1%64  ==>  buf'[o] = stream(NB, o)
+ *   (d) state word g_sk: unchanged if no compression call happened, else the oracle's last output.
+ * ENFORCED on the real code in C05.sha256_write (--enforce-contract), REPLACES the call in the lemma
+ * harnesses (split lemma, finalize).  g_cw_off doubles as the watched buf offset of (c). */
+#ifdef HASH_SPEC_WRITE_CONTRACT
+unsigned g_sk;   /* ghost selector of a state word, < 8 */
+#define W_B0 __CPROVER_old(hash->bytes)
+#define W_B1 (W_B0 + len)
+#define W_R0 (W_B0 % 64)
+#define W_NB (W_B1 / 64 - W_B0 / 64)
+#define W_J (g_cw_blk - __CPROVER_old(g_c_blocks))
+/* position of (block J, offset o) relative to data[0]: 64 J + o - R0  (= P - B0); before data iff 64 J + o < R0 */
+#define W_STREAM(J_) ((J_) * 64 + g_cw_off < W_R0 ? __CPROVER_old(hash->buf[g_cw_off]) : data[(J_) * 64 + g_cw_off - W_R0])
+static void secp256k1_sha256_write(const secp256k1_hash_ctx *hash_ctx, secp256k1_sha256 *hash, const unsigned char *data, size_t len)
+__CPROVER_requires(__CPROVER_rw_ok(hash, sizeof(*hash)) && (len == 0 || __CPROVER_r_ok(data, len)) && __CPROVER_r_ok(hash_ctx, sizeof(*hash_ctx)))
+__CPROVER_requires(hash_ctx->fn_sha256_compression == verif_compress)
+__CPROVER_requires(hash->bytes <= UINT64_MAX - len)                                     /* the function's own precondition (VERIFY_CHECK) */
+__CPROVER_requires(g_cw_off < 64 && g_sk < 8 && g_c_blocks <= (UINT64_MAX >> 2) && len <= ((size_t)1 << 60) && g_cw_hit >= 0 && g_cw_hit < 1000 && g_c_calls < 1000)
+__CPROVER_assigns(*hash, g_c_calls, g_c_blocks, g_cw_hit, g_cw_byte, g_cw_call, g_c_state, g_c_ptr, g_c_n, g_c_out, g_c_bad, g_mc_calls)
+__CPROVER_ensures(hash->bytes == W_B1)
+__CPROVER_ensures(g_c_blocks == __CPROVER_old(g_c_blocks) + W_NB)
+__CPROVER_ensures((g_cw_blk >= __CPROVER_old(g_c_blocks) && W_J < W_NB)
+    ? (g_cw_hit == __CPROVER_old(g_cw_hit) + 1 && g_cw_byte == W_STREAM(W_J))
+    : (g_cw_hit == __CPROVER_old(g_cw_hit) && g_cw_byte == __CPROVER_old(g_cw_byte)))
+__CPROVER_ensures(g_cw_off < W_B1 % 64 ==> hash->buf[g_cw_off] == W_STREAM(W_NB))
+__CPROVER_ensures(W_NB * 64 + W_B1 % 64 == W_R0 + len)                                  /* arithmetic fact, handed to consumers as a lemma */
+__CPROVER_ensures(g_c_calls >= __CPROVER_old(g_c_calls) && g_c_calls <= __CPROVER_old(g_c_calls) + 2 && g_c_bad == __CPROVER_old(g_c_bad))
+__CPROVER_ensures(hash->s[g_sk] == (g_c_calls == __CPROVER_old(g_c_calls) ? __CPROVER_old(hash->s[g_sk]) : g_c_out[g_sk]))
+__CPROVER_ensures(len == 0 ==> (hash->buf[g_cw_off] == __CPROVER_old(hash->buf[g_cw_off]) && g_c_calls == __CPROVER_old(g_c_calls)))
+;
+#endif
+
 /* memcpy model for the hash units that keep memcpy-ing code real (hash_write.c, hash_finalize.c).
  * Measured: with CBMC's built-in model (array_replace of a variable-length array into a struct member) or
  * with a plain byte loop, the symbolic-offset copies into hash->buf from a symbolic-size source cost
@@ -69,9 +108,10 @@ static void verif_compress(uint32_t *s, const unsigned char *blocks, size_t n) {
  * stream lemma does not finish in 10 min.  Model used instead (an over-approximation of memcpy, hence
  * sound; every memcpy of the hashing code copies <= 64 bytes):
  *  - destination inside the harness-designated object g_mc_base (the secp256k1_sha256 under test):
- *    every byte of [dst, dst+n) is overwritten, at a constant object offset; the byte at the WATCHED
- *    object offset g_mc_doff (ghost selector, unconstrained in the harness) receives the source byte,
- *    the other bytes of the range receive arbitrary values; bytes outside the range are untouched;
+ *    [dst, dst+n) must lie inside the member hash->buf (obligation); every byte of the range is
+ *    overwritten, at a constant object offset; the byte at the WATCHED object offset g_mc_doff (ghost
+ *    selector, unconstrained in the harness) receives the source byte, the other bytes of the range
+ *    receive arbitrary values; bytes outside the range are untouched;
  *  - any other destination (small local arrays): exact byte loop, n <= MEMCPY_MAX is an obligation.
  * Obligations: n <= 64, distinct objects, destination range writable, source byte readable.
  * Use: #define VERIF_MEMCPY_MODEL before this header, then
@@ -81,10 +121,10 @@ static void verif_compress(uint32_t *s, const unsigned char *blocks, size_t n) {
 #ifndef MEMCPY_MAX
 #define MEMCPY_MAX 64
 #endif
-#ifndef MC_OBJ_SIZE
-#define MC_OBJ_SIZE sizeof(secp256k1_sha256)
+#ifndef MC_LO
+#define MC_LO offsetof(secp256k1_sha256, buf)          /* the designated member: hash->buf */
+#define MC_HI (offsetof(secp256k1_sha256, buf) + 64)
 #endif
-unsigned char *g_mc_base; size_t g_mc_doff; int g_mc_calls;
 unsigned char nondet_uchar_mc(void);
 static void *verif_memcpy64(void *dst, const void *src, size_t n) {
     unsigned char *d_ = dst; const unsigned char *s_ = src; size_t i_;
@@ -95,10 +135,11 @@ static void *verif_memcpy64(void *dst, const void *src, size_t n) {
     if (g_mc_base != NULL && __CPROVER_same_object(dst, g_mc_base)) {
         size_t off_ = __CPROVER_POINTER_OFFSET(dst);
         unsigned char w_ = 0;
-        __CPROVER_assert(__CPROVER_OBJECT_SIZE(dst) == MC_OBJ_SIZE && __CPROVER_POINTER_OFFSET(g_mc_base) == 0, "C05 memcpy model: designated object has the modelled size");
-        __CPROVER_assert(n == 0 || __CPROVER_w_ok(dst, n), "C05 memcpy model: destination range is writable");
+        __CPROVER_assert(__CPROVER_POINTER_OFFSET(g_mc_base) == 0 && __CPROVER_OBJECT_SIZE(dst) >= MC_HI, "C05 memcpy model: designated object contains the designated member");
+        __CPROVER_assert(off_ >= MC_LO && off_ <= MC_HI && n <= MC_HI - off_, "C05 memcpy model: destination range lies inside hash->buf");
+        __CPROVER_assume(off_ >= MC_LO && off_ <= MC_HI && n <= MC_HI - off_);   /* just asserted */
         if (g_mc_doff >= off_ && g_mc_doff - off_ < n) w_ = s_[g_mc_doff - off_];
-        for (i_ = 0; i_ < MC_OBJ_SIZE; i_++) if (i_ >= off_ && i_ - off_ < n) g_mc_base[i_] = (i_ == g_mc_doff) ? w_ : nondet_uchar_mc();
+        for (i_ = MC_LO; i_ < MC_HI; i_++) if (i_ >= off_ && i_ - off_ < n) g_mc_base[i_] = (i_ == g_mc_doff) ? w_ : nondet_uchar_mc();
         return dst;
     }
     for (i_ = 0; i_ < MEMCPY_MAX; i_++) if (i_ < n) d_[i_] = s_[i_];
